@@ -35,8 +35,13 @@ type Cfg struct {
 	ErrRd       string // reader | stderr | none
 	Inputs      []int  // Join: number of elements per input
 	Ops         int    // Throttling
-	Idle        bool   // the producer goes idle after its last element instead of closing the input
-	Any         bool   // the element type is `any` and every other element is a nil interface value
+	Late        int    // >0: the consumer of the first output sleeps that long (virtual ns) before its receive number LateAt (from 0)
+	LateAt      int
+	Dup         bool // Join: the (single) input channel is passed twice
+	Interval    int  // Throttling: interval in ticks (0 is allowed and means "no pacing"); default 4
+	FailFrom    int  // Emit: >0: the function fails on every index >= FailFrom, for ever
+	Idle        bool // the producer goes idle after its last element instead of closing the input
+	Any         bool // the element type is `any` and every other element is a nil interface value
 }
 
 // Aff is an affine map x -> A*x+B; composition is a non-commutative monoid with identity {1,0}.
@@ -46,17 +51,38 @@ func Bit(m, i int) bool { return m&(1<<i) != 0 }
 
 var errFail = errors.New("fail")
 
-// Fail is the error returned for element x.
-func Fail(x int) error { return fmt.Errorf("fail%d", x) }
+// Fail is the error returned for element x. Some of the errors wrap context.Canceled / DeadlineExceeded: a fault of
+// the user function that happens to be such an error is a fault like any other while the pipeline's own context is live.
+func Fail(x int) error {
+	switch {
+	case x%2 == 0:
+		return fmt.Errorf("fail%d: %w", x, context.Canceled)
+	case x%3 == 0:
+		return fmt.Errorf("fail%d: %w", x, context.DeadlineExceeded)
+	}
+	return fmt.Errorf("fail%d", x)
+}
 
-func consume[T any](name string, ch <-chan T, stop int, after int, cancel func()) {
+// consume starts the consumer of one output; lateAt = [ns, k]: it sleeps ns (virtual) before its receive number k.
+func consume[T any](name string, ch <-chan T, stop int, after int, cancel func(), lateAt ...int) {
 	env.WatchClosed(name, ch)
 	if stop == 0 {
 		return
 	}
+	lateNs, lateK := 0, 0
+	if len(lateAt) == 2 {
+		lateNs, lateK = lateAt[0], lateAt[1]
+	}
 	go func() {
 		n := 0
-		for x := range ch {
+		for {
+			if lateNs > 0 && n == lateK {
+				time.Sleep(time.Duration(lateNs))
+			}
+			x, ok := <-ch
+			if !ok {
+				break
+			}
 			env.Log(name, x)
 			n++
 			if after > 0 && n == after {
@@ -115,7 +141,7 @@ func Scenario(c Cfg) {
 	pred := func(x int) (bool, error) { env.Log("call", x); return Bit(c.Mask, x), nil }
 	fn := func(x int) (int, error) {
 		env.Log("call", x)
-		if Bit(c.Mask, x) {
+		if (x < 62 && Bit(c.Mask, x)) || (c.FailFrom > 0 && x >= c.FailFrom) {
 			return 0, Fail(x)
 		}
 		return x * 10, nil
@@ -133,10 +159,10 @@ func Scenario(c Cfg) {
 	out2 := func(out <-chan int, exx <-chan error) {
 		if c.ErrRd == "stderr" {
 			env.WatchClosed("err", exx)
-			consume("got", pipe.StdErr(out, exx), c.Stop, c.CancelAfter, cancel)
+			consume("got", pipe.StdErr(out, exx), c.Stop, c.CancelAfter, cancel, c.Late, c.LateAt)
 			return
 		}
-		consume("got", out, c.Stop, c.CancelAfter, cancel)
+		consume("got", out, c.Stop, c.CancelAfter, cancel, c.Late, c.LateAt)
 		if c.ErrRd == "none" { // nobody ever reads the error channel
 			env.WatchClosed("err", exx)
 			return
@@ -183,14 +209,14 @@ func Scenario(c Cfg) {
 		}
 		out2(pipe.FMap(ctx, mkin("sent", 1, c.K), ff))
 	case "filter":
-		consume("got", pipe.Filter(ctx, mkin("sent", 1, c.K), pipe.Lift(pred)), c.Stop, 0, cancel)
+		consume("got", pipe.Filter(ctx, mkin("sent", 1, c.K), pipe.Lift(pred)), c.Stop, 0, cancel, c.Late, c.LateAt)
 	case "takewhile":
-		consume("got", pipe.TakeWhile(ctx, mkin("sent", 1, c.K), pipe.Lift(pred)), c.Stop, 0, cancel)
+		consume("got", pipe.TakeWhile(ctx, mkin("sent", 1, c.K), pipe.Lift(pred)), c.Stop, 0, cancel, c.Late, c.LateAt)
 	case "take":
-		consume("got", pipe.Take(ctx, mkin("sent", 1, c.K), c.N), c.Stop, 0, cancel)
+		consume("got", pipe.Take(ctx, mkin("sent", 1, c.K), c.N), c.Stop, 0, cancel, c.Late, c.LateAt)
 	case "partition":
 		l, r := pipe.Partition(ctx, mkin("sent", 1, c.K), pipe.Lift(pred))
-		consume("l", l, c.Stop, 0, cancel)
+		consume("l", l, c.Stop, 0, cancel, c.Late, c.LateAt)
 		consume("r", r, c.Stop2, 0, cancel)
 	case "foreach":
 		consume("done", pipe.ForEach(ctx, mkin("sent", 1, c.K), pipe.Pure(func(x int) int { env.Log("call", x); return x })), -1, 0, cancel)
@@ -213,7 +239,11 @@ func Scenario(c Cfg) {
 			close(in)
 			env.Log("in-closed")
 		}()
-		consume("got", pipe.Fold(ctx, in, m), c.Stop, 0, cancel)
+		consume("got", pipe.Fold(ctx, in, m), c.Stop, 0, cancel, c.Late, c.LateAt)
+	case "fold100":
+		// an "empty" element that is not neutral: the statement says the fold starts from the monoid's empty element
+		m := monoid.FromOp(100, func(a, b int) int { return a*2 + b })
+		consume("got", pipe.Fold(ctx, mkin("sent", 1, c.K), m), c.Stop, 0, cancel, c.Late, c.LateAt)
 	case "seq":
 		xs := make([]int, c.K)
 		for i := range xs {
@@ -231,6 +261,9 @@ func Scenario(c Cfg) {
 		var ins []<-chan int
 		for i, n := range c.Inputs {
 			ins = append(ins, mkin(fmt.Sprintf("sent%d", i), 10*(i+1)+1, n))
+		}
+		if c.Dup && len(ins) == 1 {
+			ins = append(ins, ins[0]) // the same channel twice: its elements still arrive once each, nothing else does
 		}
 		out := pipe.Join(ctx, ins...)
 		env.WatchClosed("got", out)
@@ -271,7 +304,14 @@ func Scenario(c Cfg) {
 	case "emit":
 		out2(pipe.Emit(ctx, c.Cap, 3*time.Nanosecond, lift()))
 	case "throttle":
-		consume("got", pipe.Throttling(ctx, mkin("sent", 1, c.K), c.Ops, 4*time.Nanosecond), c.Stop, 0, cancel)
+		iv := 4
+		if c.Interval != 0 {
+			iv = c.Interval
+		}
+		if iv < 0 {
+			iv = 0
+		}
+		consume("got", pipe.Throttling(ctx, mkin("sent", 1, c.K), c.Ops, time.Duration(iv)*time.Nanosecond), c.Stop, 0, cancel, c.Late, c.LateAt)
 	default:
 		panic("unknown stage " + c.Stage)
 	}
